@@ -413,6 +413,44 @@ def handle (op : String) (args : List String) (impl : Impl) : Option Ans :=
              | .panic, _ => "panic" | _, .panic => "panic" | _, _ => "err"),
            spec := if sp == "ok" && !cross then "FAIL:softf64_equals_hw" else sp,
            branch := "ydoy:" ++ signTag e ts ++ (if cross then ":softf64=hw" else ":softf64!=hw") }
+  -- ---------------------------------------------------------------- C20: (year, day of year)
+  | "from_doy", [y, hex, ts] | "doy_rt", [y, hex, ts] => do
+    let y ← y.toInt?; let ts ← TS.ofString? ts; let x ← floatOfHex hex
+    -- `Epoch::from_day_of_year`: from_gregorian(year, 1, 1, 0, 0, 0, 0, ts) + (days - 1.0) * Unit::Day
+    let built : Res Dur := match Cal.fromGregorian y 1 1 0 0 0 0 ts with
+      | .ok d0 => .ok (Dur.add d0 (Hifi.Views.unitMulF Hifi.Views.dayF (x - 1.0)))
+      | .err => .err | .panic => .panic
+    let ndays : Int := if Cal.isLeapYear y then 366 else 365
+    let jan1 : Int := elapsedNs ts.name ⟨y, 1, 1⟩ 0 0 0 0
+    -- the exact offset (days − 1)·day is compared in binary64 (|offset| < 2^55 ns: 4 ns resolution)
+    let wantOff : Float := (x - 1.0) * 86400000000000.0
+    let edge := wantOff ≥ Float.ofInt (ndays * NPDs) - 16.0   -- within float resolution of the next year
+    if op == "from_doy" then
+      let sp := match impl with
+        | .ok [r] => (match parseEpoch? r with
+            | some (e, ets) => verdict [("scale", ets == ts), ("canonical", scanon e),
+                                         ("jan_1_plus_days_minus_one", (Float.ofInt (sval e - jan1) - wantOff).abs ≤ 16.0)]
+            | none => "FAIL:decode")
+        | .ok _ => "FAIL:decode"
+        | .other w => "FAIL:" ++ w
+      pure { model := showResEpoch ts built, spec := sp,
+             branch := "from_doy:" ++ ts.name ++ (if Cal.isLeapYear y then ":leap" else ":common") ++ (if edge then ":year_end" else "") }
+    else
+      let sp := match impl with
+        | .ok [yy, dh] => (match yy.toInt?, floatOfHex dh with
+            | some yy, some d =>
+              if edge then verdict [("year_or_next", yy == y || yy == y + 1)]
+              else verdict [("year", yy == y), ("day_of_year_to_float_precision", (d - x).abs ≤ 1e-12)]
+            | _, _ => "FAIL:decode")
+        | .ok _ => "FAIL:decode"
+        | .other w => "FAIL:" ++ w
+      let m := match built with
+        | .ok d => (match Cal.year d ts, Cal.durationInYear d ts with
+            | .ok yy, .ok diy => "ok " ++ toString yy ++ " " ++ hex16 (dayOfYearF diy).toBits.toNat
+            | .panic, _ => "panic" | _, .panic => "panic" | _, _ => "err")
+        | .err => "err" | .panic => "panic"
+      pure { model := m, spec := sp,
+             branch := "doy_rt:" ++ ts.name ++ (if Cal.isLeapYear y then ":leap" else ":common") ++ (if edge then ":year_end" else "") }
   | _, _ => none
 
 end Hifi.Drive.Calendar
